@@ -72,7 +72,9 @@ def get_system(options: model.Options) -> model.System:
     # step 3: move the system to the desired state
 
     if system.options.projectname is None:
-        name = '/'.join(system.root_names)
+        # Not using System.root_names here since it's a set: 
+        # the guessed name must not depend on the hash seed.
+        name = '/'.join(root.name for root in system.rootobjects)
         system.msg('warning', f"Guessing '{name}' for project name.", thresh=0)
         system.projectname = name
     else:
